@@ -43,6 +43,7 @@ import ZygoVerif.Proofs.C01GenSites
 import ZygoVerif.Proofs.C01VM
 import ZygoVerif.Generated.PanicSites
 import ZygoVerif.Generated.StackSites
+import ZygoVerif.Generated.GenDispatch
 namespace ZygoVerif.C01
 open ZygoVerif.Parser ZygoVerif.Lexer ZygoVerif.GenSites
 
@@ -65,7 +66,7 @@ def Classified : List (String × Cover) :=
     ("AssignInstr.Execute", .behaviour), ("BindlistInstr.Execute", .residual), ("Blake2bUint64", .residual),
     ("ByteSliceToChunkedBase64StringNotJoined", .residual), ("Closing.TopScope", .behaviour), ("CountPostHook", .residual),
     ("CountPreHook", .residual), ("DebugInstr.Execute", .residual), ("DecodeChar", .sites),
-    ("EvalFunction", .residual), ("Generator.GenerateAssert", .sites), ("Generator.GenerateAssignment", .residual),
+    ("EvalFunction", .residual), ("Generator.GenerateAssert", .sites), ("Generator.GenerateAssignment", .sites),
     ("Generator.GenerateBegin", .sites), ("Generator.GenerateBreak", .sites), ("Generator.GenerateBuilder", .residual),
     ("Generator.GenerateCallBySymbol", .sites), ("Generator.GenerateCond", .sites), ("Generator.GenerateContinue", .sites),
     ("Generator.GenerateDef", .sites), ("Generator.GenerateDefmac", .sites), ("Generator.GenerateDefn", .sites),
@@ -343,6 +344,30 @@ example : isErr (genForm (fun _ => pure ()) (fun _ => true) "cond" []) = true :=
 example : isOk (genForm (fun _ => pure ()) (fun _ => true) "and" []) = true := by decide
 example : isOk (genForm (fun _ => pure ()) (fun _ => true) "for" [.arr [.other, .other, .other]]) = true := by decide
 
+/-- `Generator.Generate`, the pair case: a dotted pair in code position is data; the
+panic-capable `GenerateAssignment` (`ListToArray` + `panicOn`) is reached by proper lists only
+— for every pair shape. -/
+theorem generate_pair_dispatch_no_panic (sub : Arg → P Unit) (hs : ∀ a, NoPanic (sub a)) (p : PairShape) :
+    NoPanic (genPair sub p) :=
+  genPair_np hs p
+
+example : isOk (genPair (fun _ => pure ()) ⟨false, some 1, true, 3⟩) = true := by decide
+
+/-- The guard order matters: testing for an assignment before testing for a proper list
+sends `(a = 1 \ 2)` into the `panicOn`. -/
+theorem assign_before_list_counterexample :
+    isPanic (Legacy.genPairAssignFirst (fun _ => pure ()) ⟨false, some 1, true, 3⟩) = true := by decide
+
+/-- … and in the current source the call of `GenerateAssignment` in the `*SexpPair` case of
+`Generate` IS dominated by the `IsList(e)` test (T1: regenerated from generator.go on every
+run; lexical domination through if-bodies, else branches and early returns). -/
+def guardedByIsList (c : String × List String) : Bool :=
+  c.1 != "GenerateAssignment" || c.2.contains "IsList(e)" || c.2.contains "!(!IsList(e))"
+
+theorem pair_dispatch_guarded :
+    Generated.GenDispatch.pairCase.all guardedByIsList = true ∧
+    (Generated.GenDispatch.pairCase.any fun c => c.1 == "GenerateAssignment") = true := by decide +kernel
+
 /-- Before fix cc83369 `(and)` / `(or)` indexed `args[-1]`. -/
 theorem legacy_and_counterexample (sub : Arg → P Unit) :
     Legacy.genShortCircuit sub [] = .error .panic := rfl
@@ -371,9 +396,11 @@ open ZygoVerif.VM in
 /-- Proved part. The typed pops of the VM (`PopExpr`, `PopExpressions`, the argument check
 of `CallFunction`, `wrangleOptargs`, scope pops, stack-mark pops) and the binding of a symbol
 neither panic on stacks without nil cells nor create a nil cell, and `restoreControlState`
-does not either AS LONG AS the recorded sizes do not exceed the present ones (`Fits`); the one
-remaining panic is `LexicalBindSymbol` on an EMPTY scope stack, and then the scope stack is
-empty in the final state.
+does not either AS LONG AS the recorded sizes do not exceed the present ones (`Fits`); one
+step of `Execute` for every instruction kind that does not call into the interpreter (24 of
+the 26 kinds of the model: all but `CallInstr{array}` and `CallExprInstr`) is safe in the same
+sense; the one remaining panic is `LexicalBindSymbol` on an EMPTY scope stack, and then the
+scope stack is empty in the final state.
 Missing for `C01NoPanic`: (1) `Fits` at every `restoreControlState` and a non-empty scope
 stack at every bind — the stack balance of generated code, C04's theorem, not available as a
 hypothesis-free fact about `VM.run`; without it `TruncateToSize` PADS the stack with nil
@@ -390,11 +417,14 @@ theorem c01_no_panic_partial :
     (∀ f n s, VMSafe.Good s → VMSafe.SafeAt s (callFunction f n)) ∧
     (∀ n s, VMSafe.Good s → VMSafe.SafeAt s (popScopes n)) ∧
     (∀ l k fuel s, VMSafe.Good s → VMSafe.SafeAt s (popToMark l k fuel)) ∧
-    (∀ x v s, VMSafe.Good s → VMSafe.SafeAt s (bindTop x v)) :=
+    (∀ x v s, VMSafe.Good s → VMSafe.SafeAt s (bindTop x v)) ∧
+    (∀ fuel i s, VMSafe.isCall i = false → VMSafe.Good s → VMSafe.SafeAt s (exec (fuel + 1) i)) :=
   ⟨VMSafe.popData_safe, VMSafe.popN_safe, VMSafe.restore_safe, VMSafe.callFunction_safe,
-   VMSafe.popScopes_safe, VMSafe.popToMark_safe, VMSafe.bindTop_safe⟩
+   VMSafe.popScopes_safe, VMSafe.popToMark_safe, VMSafe.bindTop_safe,
+   fun fuel i s hi hg => VMSafe.exec_step_safe fuel i hi s hg⟩
 
 example : VMSafe.Good VM.initSt := VMSafe.good_init
+example : VMSafe.isCall (.branch true 2) = false := rfl
 example : VMSafe.Fits ⟨0, 0, 0, 0, 1, 0⟩ VM.initSt := by
   refine ⟨Nat.zero_le _, Nat.zero_le _, ?_⟩
   simp [VM.initSt]
